@@ -1,7 +1,7 @@
 """C12 configuration for ./check (keys: see checks/propcfg.py)."""
 CFG = {
     "modules": ["VaxisModel.Props.C12", "VaxisModel.Witness.F112b"],
-    "extractors": ["C07", "C04", "C05", "C03"],
+    "extractors": ["C07", "C04", "C05", "C03", "C12"],
     "drivers": ["C12"],
     "stateful": True,
     "trivial_prefix": ("-", "bytes="),
